@@ -410,6 +410,7 @@ func Module(m *sysl.Module, opt Options) *P {
 		}
 		for _, v := range sortedKeys(a.GetViews()) {
 			p.add("view", name, v)
+			p.loc([]string{"view", name, v}, a.GetViews()[v].GetSourceContexts())
 		}
 	}
 	for _, im := range m.GetImports() {
